@@ -2,7 +2,7 @@
 //! earliest/latest bounds, range texts (core/src/value/{partial,deserialize,range,primitive}.rs)
 use chrono::{DateTime, Datelike, Duration, FixedOffset, NaiveDate, NaiveDateTime, NaiveTime, TimeZone, Timelike};
 use dicom_core::value::deserialize::{
-    parse_date_partial, parse_datetime_partial, parse_time_partial, Error as DeErr,
+    parse_date, parse_date_partial, parse_datetime_partial, parse_time, parse_time_partial, Error as DeErr,
 };
 use dicom_core::value::partial::Error as PErr;
 use dicom_core::value::range::{
@@ -40,6 +40,10 @@ fn d_class(e: &DeErr) -> u32 {
         DeErr::InvalidTimeZoneSignToken { .. } => 8,
         DeErr::InvalidDateTime { .. } => 9,
         DeErr::SecsOutOfBounds { .. } => 10,
+        DeErr::IncompleteValue { .. } => 11,
+        DeErr::InvalidTime { .. } => 12,
+        DeErr::FractionDelimiter { .. } => 13,
+        DeErr::InvalidDate { .. } => 14,
         _ => 19,
     }
 }
@@ -106,6 +110,13 @@ fn c_precise(p: &PreciseDateTime) -> String {
 }
 fn c_res<T, E>(r: &Result<T, E>, f: impl Fn(&T) -> String, cls: impl Fn(&E) -> u32) -> String {
     match r { Ok(v) => c_ok(&f(v)), Err(e) => c_err(cls(e)) }
+}
+/// result of a call made under catch_unwind: None = it panicked
+fn c_caught<T, E>(r: &Option<Result<T, E>>, f: impl Fn(&T) -> String, cls: impl Fn(&E) -> u32) -> String {
+    match r { None => c_panic(), Some(r) => c_res(r, f, cls) }
+}
+fn panic_oracle<T>(r: &Option<T>, what: &str, b: &[u8], otherwise: Oracle) -> Oracle {
+    if r.is_none() { fails("parser-panic", format!("{} panicked on {:?} (bytes {})", what, show(b), hex(b))) } else { otherwise }
 }
 fn c_date_range(r: &DateRange) -> String {
     format!("({}, {})", c_opt(r.start().map(c_ymd)), c_opt(r.end().map(c_ymd)))
@@ -339,6 +350,29 @@ fn mutate(r: &mut Rng, s: &str) -> Vec<u8> {
     }
     b
 }
+/// byte sequences that are not DICOM date/time text: multi-byte UTF-8, invalid UTF-8, NUL, signs, overlong digit runs
+const WILD: &[&[u8]] = &[b"\xc3\xa9", b"\xef\xbc\x8b", b"\xf0\x9f\x95\x90", b"\xff", b"\x80", b"\x00", b"\xe2\x80", b"-", b"+", b"--", b"+-", b".", b"..",
+    b"9999999999", b"00000000000000000000", b"4294967296", b"256", b"\\", b" ", b"\xd9\xa1\xd9\xa2" /* arabic-indic digits */, b"\xef\xbc\x91" /* fullwidth 1 */];
+fn inject(r: &mut Rng, base: &[u8]) -> Vec<u8> {
+    let mut b = base.to_vec();
+    for _ in 0..r.range(1, 2) {
+        let at = r.below(b.len() as u64 + 1) as usize;
+        let w = *r.pick(WILD);
+        if r.chance(1, 4) && at < b.len() { let end = (at + w.len()).min(b.len()); b.splice(at..end, w.iter().cloned()); }
+        else { b.splice(at..at, w.iter().cloned()); }
+    }
+    b
+}
+fn wild_text(r: &mut Rng, max: u64) -> Vec<u8> {
+    let n = r.below(max + 1);
+    (0..n).map(|_| match r.below(4) { 0 => r.below(256) as u8, 1 => *r.pick(b".+-"), _ => b'0' + r.below(10) as u8 }).collect()
+}
+/// `base` with each WILD-like insert at every offset (deterministic block of the corpus)
+fn every_offset(base: &[u8], inserts: &[&[u8]]) -> Vec<Vec<u8>> {
+    let mut out = vec![];
+    for at in 0..=base.len() { for w in inserts { let mut b = base.to_vec(); b.splice(at..at, w.iter().cloned()); out.push(b); } }
+    out
+}
 fn rand_text(r: &mut Rng, max: u64) -> Vec<u8> {
     let n = r.below(max + 1);
     (0..n).map(|_| *r.pick(POOL)).collect()
@@ -401,32 +435,67 @@ fn case_mk_time(kind: u32, h: u8, m: u8, s: u8, f: u32) -> Case {
     let coq = format!("(CMkTime {} {} {} {} {} {})", kind, h, m, s, f, c_res(&res, c_time, p_class));
     Case { coq, desc: json!({"bucket": "constructor/time", "kind": kind, "args": [h, m, s, f]}), key: format!("MT{}/{}/{}/{}/{}", kind, h, m, s, f), oracle }
 }
+fn utf8_from_str_agrees<T: std::str::FromStr + PartialEq>(b: &[u8], direct: Option<&T>) -> bool {
+    // the FromStr impls are the byte parsers applied to as_bytes(): same answer, no panic
+    match std::str::from_utf8(b) {
+        Ok(t) => match catch(|| t.parse::<T>().ok()) { Some(v) => v.as_ref() == direct, None => false },
+        Err(_) => true,
+    }
+}
 fn case_parse_date(b: &[u8]) -> Case {
-    let res = parse_date_partial(b);
-    let coq = format!("(CParseDate {} {})", c_bytes(b), c_res(&res, |x| format!("({}, {})", c_date(&x.0), c_bytes(x.1)), d_class));
-    Case { coq, desc: json!({"bucket": if res.is_ok() { "parse/date/ok" } else { "parse/date/err" }, "text": show(b)}), key: format!("PD{}", hex(b)), oracle: Oracle::NotApplicable }
+    let res = catch(|| parse_date_partial(b).map(|x| (x.0, x.1.to_vec())));
+    let coq = format!("(CParseDate {} {})", c_bytes(b), c_caught(&res, |x| format!("({}, {})", c_date(&x.0), c_bytes(&x.1)), d_class));
+    let ok = matches!(&res, Some(Ok(_)));
+    let direct = res.as_ref().and_then(|r| r.as_ref().ok()).map(|x| x.0);
+    let oracle = panic_oracle(&res, "parse_date_partial", b, if utf8_from_str_agrees::<DicomDate>(b, direct.as_ref()) { Oracle::Holds } else { fails("parser-panic", format!("DicomDate::from_str disagrees or panics on {:?}", show(b))) });
+    Case { coq, desc: json!({"bucket": if ok { "parse/date/ok" } else { "parse/date/err" }, "text": show(b), "hex": hex(b)}), key: format!("PD{}", hex(b)), oracle }
 }
 fn case_parse_time(b: &[u8]) -> Case {
-    let res = parse_time_partial(b);
-    let coq = format!("(CParseTime {} {})", c_bytes(b), c_res(&res, |x| format!("({}, {})", c_time(&x.0), c_bytes(x.1)), d_class));
-    Case { coq, desc: json!({"bucket": if res.is_ok() { "parse/time/ok" } else { "parse/time/err" }, "text": show(b)}), key: format!("PT{}", hex(b)), oracle: Oracle::NotApplicable }
+    let res = catch(|| parse_time_partial(b).map(|x| (x.0, x.1.to_vec())));
+    let coq = format!("(CParseTime {} {})", c_bytes(b), c_caught(&res, |x| format!("({}, {})", c_time(&x.0), c_bytes(&x.1)), d_class));
+    let ok = matches!(&res, Some(Ok(_)));
+    let direct = res.as_ref().and_then(|r| r.as_ref().ok()).map(|x| x.0);
+    let oracle = panic_oracle(&res, "parse_time_partial", b, if utf8_from_str_agrees::<DicomTime>(b, direct.as_ref()) { Oracle::Holds } else { fails("parser-panic", format!("DicomTime::from_str disagrees or panics on {:?}", show(b))) });
+    Case { coq, desc: json!({"bucket": if ok { "parse/time/ok" } else { "parse/time/err" }, "text": show(b), "hex": hex(b)}), key: format!("PT{}", hex(b)), oracle }
 }
 fn case_parse_dt(b: &[u8]) -> Case {
-    let res = parse_datetime_partial(b);
-    let coq = format!("(CParseDT {} {})", c_bytes(b), c_res(&res, c_dt, d_class));
-    // whatever parses must print back to a text that parses to the same value
+    let res = catch(|| parse_datetime_partial(b));
+    let coq = format!("(CParseDT {} {})", c_bytes(b), c_caught(&res, c_dt, d_class));
+    // whatever parses must print back to a text that parses to the same value; its bounds must not panic
     let oracle = match &res {
-        Ok(v) if v.time_zone().map_or(true, zone_is_dicom) => match parse_datetime_partial(v.to_encoded().as_bytes()) {
-            Ok(b2) if b2 == *v => Oracle::Holds,
-            other => fails("datetime-roundtrip", format!("{} -> {:?} -> {} -> {:?}", show(b), v, v.to_encoded(), other.ok())),
-        },
-        _ => Oracle::NotApplicable,
+        None => panic_oracle(&res, "parse_datetime_partial", b, Oracle::Holds),
+        Some(Ok(v)) => {
+            if catch(|| (v.earliest().is_ok(), v.latest().is_ok())).is_none() { fails("parser-panic", format!("earliest/latest panicked on the value parsed from {:?}", show(b))) }
+            else if !utf8_from_str_agrees::<DicomDateTime>(b, Some(v)) { fails("parser-panic", format!("DicomDateTime::from_str disagrees or panics on {:?}", show(b))) }
+            else if v.time_zone().map_or(true, zone_is_dicom) {
+                match parse_datetime_partial(v.to_encoded().as_bytes()) {
+                    Ok(b2) if b2 == *v => Oracle::Holds,
+                    other => fails("datetime-roundtrip", format!("{} -> {:?} -> {} -> {:?}", show(b), v, v.to_encoded(), other.ok())),
+                }
+            } else { Oracle::Holds }
+        }
+        Some(Err(_)) => Oracle::Holds,
     };
-    Case { coq, desc: json!({"bucket": if res.is_ok() { "parse/datetime/ok" } else { "parse/datetime/err" }, "text": show(b)}), key: format!("PDT{}", hex(b)), oracle }
+    let ok = matches!(&res, Some(Ok(_)));
+    Case { coq, desc: json!({"bucket": if ok { "parse/datetime/ok" } else { "parse/datetime/err" }, "text": show(b), "hex": hex(b)}), key: format!("PDT{}", hex(b)), oracle }
+}
+fn case_parse_date_full(b: &[u8]) -> Case {
+    let res = catch(|| parse_date(b));
+    let coq = format!("(CParseDateFull {} {})", c_bytes(b), c_caught(&res, c_ymd, d_class));
+    let ok = matches!(&res, Some(Ok(_)));
+    Case { coq, desc: json!({"bucket": if ok { "parse/date-full/ok" } else { "parse/date-full/err" }, "text": show(b), "hex": hex(b)}), key: format!("PDF{}", hex(b)), oracle: panic_oracle(&res, "parse_date", b, Oracle::Holds) }
+}
+fn case_parse_time_full(b: &[u8]) -> Case {
+    let res = catch(|| parse_time(b).map(|x| (x.0, x.1.to_vec())));
+    let coq = format!("(CParseTimeFull {} {})", c_bytes(b), c_caught(&res, |x| format!("({}, {})", c_hmsu(&x.0), c_bytes(&x.1)), d_class));
+    let ok = matches!(&res, Some(Ok(_)));
+    Case { coq, desc: json!({"bucket": if ok { "parse/time-full/ok" } else { "parse/time-full/err" }, "text": show(b), "hex": hex(b)}), key: format!("PTF{}", hex(b)), oracle: panic_oracle(&res, "parse_time", b, Oracle::Holds) }
 }
 fn case_date_range(b: &[u8], ab: Option<(DicomDate, DicomDate)>) -> Case {
-    let res = parse_date_range(b);
-    let coq = format!("(CDateRange {} {})", c_bytes(b), c_res(&res, c_date_range, r_class));
+    let caught = catch(|| parse_date_range(b));
+    let coq = format!("(CDateRange {} {})", c_bytes(b), c_caught(&caught, c_date_range, r_class));
+    if caught.is_none() { return Case { coq, desc: json!({"bucket": "range/date/panic", "text": show(b), "hex": hex(b)}), key: format!("RD{}", hex(b)), oracle: panic_oracle(&caught, "parse_date_range", b, Oracle::Holds) }; }
+    let res = caught.unwrap();
     let oracle = match ab.and_then(|(a, bb)| Some((a.earliest().ok()?, bb.latest().ok()?))) {
         Some((lo, hi)) => {
             let good = if lo <= hi { matches!(&res, Ok(rg) if rg.start() == Some(&lo) && rg.end() == Some(&hi)) } else { matches!(&res, Err(RErr::RangeInversion { .. })) };
@@ -437,8 +506,10 @@ fn case_date_range(b: &[u8], ab: Option<(DicomDate, DicomDate)>) -> Case {
     Case { coq, desc: json!({"bucket": if ab.is_some() { "range/date/A-B" } else { "range/date/other" }, "text": show(b)}), key: format!("RD{}", hex(b)), oracle }
 }
 fn case_time_range(b: &[u8], ab: Option<(DicomTime, DicomTime)>) -> Case {
-    let res = parse_time_range(b);
-    let coq = format!("(CTimeRange {} {})", c_bytes(b), c_res(&res, c_time_range, r_class));
+    let caught = catch(|| parse_time_range(b));
+    let coq = format!("(CTimeRange {} {})", c_bytes(b), c_caught(&caught, c_time_range, r_class));
+    if caught.is_none() { return Case { coq, desc: json!({"bucket": "range/time/panic", "text": show(b), "hex": hex(b)}), key: format!("RT{}", hex(b)), oracle: panic_oracle(&caught, "parse_time_range", b, Oracle::Holds) }; }
+    let res = caught.unwrap();
     let oracle = match ab.and_then(|(a, bb)| Some((a.earliest().ok()?, bb.latest().ok()?))) {
         Some((lo, hi)) => {
             let good = if lo <= hi { matches!(&res, Ok(rg) if rg.start() == Some(&lo) && rg.end() == Some(&hi)) } else { matches!(&res, Err(RErr::RangeInversion { .. })) };
@@ -452,14 +523,16 @@ fn local_offset() -> i32 { chrono::Local::now().offset().local_minus_utc() }
 /// the digits of `y` read as hhmm form a valid west offset
 fn tz_like(y: u16) -> bool { (y / 100) as u32 * 60 + (y % 100) as u32 <= 720 }
 fn case_dt_range(mode: u32, b: &[u8], ab: Option<(DicomDateTime, DicomDateTime)>) -> Case {
-    let res = match mode {
+    let caught = catch(|| match mode {
         0 => parse_datetime_range_custom::<ToLocalTimeZone>(b),
         1 => parse_datetime_range_custom::<ToKnownTimeZone>(b),
         2 => parse_datetime_range_custom::<FailOnAmbiguousRange>(b),
         _ => parse_datetime_range_custom::<IgnoreTimeZone>(b),
-    };
+    });
     let cmode = match mode { 0 => format!("(AmbLocal {})", c_z(local_offset() as i128)), 1 => "AmbKnown".into(), 2 => "AmbFail".into(), _ => "AmbIgnore".into() };
-    let coq = format!("(CDTRange {} {} {})", cmode, c_bytes(b), c_res(&res, c_dt_range, r_class));
+    let coq = format!("(CDTRange {} {} {})", cmode, c_bytes(b), c_caught(&caught, c_dt_range, r_class));
+    if caught.is_none() { return Case { coq, desc: json!({"bucket": "range/datetime/panic", "mode": mode, "text": show(b), "hex": hex(b)}), key: format!("RDT{}/{}", mode, hex(b)), oracle: panic_oracle(&caught, "parse_datetime_range", b, Oracle::Holds) }; }
+    let res = caught.unwrap();
     // oracle: both ends zoned or both naive (no ambiguity rule involved), DICOM zones, proper interval.
     // Known class AmbiguousWestOffsetRange (= ambiguous_west_range in Properties/C12.v): A has the
     // only west offset of the text and B's year reads as a west offset of at most 12:00.
@@ -611,6 +684,16 @@ pub fn cases(ctx: &Ctx) -> Vec<Case> {
             out.push(case_dt_range(mode, t.as_bytes(), None));
         }
     }
+    // arbitrary bytes at every offset of a valid text: multi-byte UTF-8, invalid UTF-8, sign, overlong digits
+    let ins: &[&[u8]] = &[b"\xc3\xa9", b"\xff", b"-", b"9999999999"];
+    for t in every_offset(b"20240229", ins) { out.push(case_parse_date(&t)); out.push(case_parse_date_full(&t)); }
+    for t in every_offset(b"235959.123456", ins) { out.push(case_parse_time(&t)); out.push(case_parse_time_full(&t)); }
+    for t in every_offset(b"20240229235959.123456-0100", ins) { out.push(case_parse_dt(&t)); }
+    for t in every_offset(b"20240229-20240301", &ins[..3]) { out.push(case_date_range(&t, None)); }
+    for t in every_offset(b"2359-235959.5", &ins[..3]) { out.push(case_time_range(&t, None)); }
+    for (k, t) in every_offset(b"20240229-0100-20240301+0100", &ins[..3]).into_iter().enumerate() { out.push(case_dt_range((k % 4) as u32, &t, None)); }
+    for t in ["", "2024", "202402", "2024022", "20240229", "202402291", "20240230", "20241301", "2024\u{e9}0229", "99999999"] { out.push(case_parse_date_full(t.as_bytes())); }
+    for t in ["", "23", "2359", "23595", "235959", "2359599", "235959.1", "235959.123456789", "235960.5", "235959x5", "235959..", "246060.0", "235959.\u{e9}", "235959.1234567890123"] { out.push(case_parse_time_full(t.as_bytes())); }
     // witness of the known finding AmbiguousWestOffsetRange (Properties/C12.v C12_datetime_range_refuted)
     out.push(match ("1000-1100".parse::<DicomDateTime>(), "1150".parse::<DicomDateTime>()) {
         (Ok(a), Ok(b)) => case_dt_range(1, b"1000-1100-1150", Some((a, b))),
@@ -623,7 +706,7 @@ pub fn cases(ctx: &Ctx) -> Vec<Case> {
     // ---- generated cases
     let n_fixed = out.len();
     for i in 0..ctx.n.saturating_sub(n_fixed) {
-        let c: Gen<Case> = (|| Ok(match i % 20 {
+        let c: Gen<Case> = (|| Ok(match i % 22 {
             0..=2 => case_date(gen_date(&mut r)?, &mut r),
             3..=5 => case_time(gen_time(&mut r)?, &mut r),
             6..=9 => case_dt(gen_dt(&mut r)?, &mut r),
@@ -639,10 +722,12 @@ pub fn cases(ctx: &Ctx) -> Vec<Case> {
                 let f = *r.pick(&[0u32, 1, 999, 1000, 999_999, 1_000_000, 123_456, u32::MAX]);
                 case_mk_time(r.below(5) as u32, h, m, s, f)
             },
-            11 => { let t = if r.chance(1, 6) { rand_text(&mut r, 10) } else { let e = gen_date(&mut r)?.to_encoded(); mutate(&mut r, &e) }; case_parse_date(&t) }
-            12 => { let t = if r.chance(1, 6) { rand_text(&mut r, 16) } else { let e = gen_time(&mut r)?.to_encoded(); mutate(&mut r, &e) }; case_parse_time(&t) }
+            11 => { let t = if r.chance(1, 6) { rand_text(&mut r, 10) } else if r.chance(1, 6) { wild_text(&mut r, 12) } else { let e = gen_date(&mut r)?.to_encoded(); if r.chance(1, 3) { inject(&mut r, e.as_bytes()) } else { mutate(&mut r, &e) } }; case_parse_date(&t) }
+            12 => { let t = if r.chance(1, 6) { rand_text(&mut r, 16) } else if r.chance(1, 6) { wild_text(&mut r, 18) } else { let e = gen_time(&mut r)?.to_encoded(); if r.chance(1, 3) { inject(&mut r, e.as_bytes()) } else { mutate(&mut r, &e) } }; case_parse_time(&t) }
             13 => {
                 let t = if r.chance(1, 6) { rand_text(&mut r, 28) }
+                else if r.chance(1, 6) { wild_text(&mut r, 30) }
+                else if r.chance(1, 5) { let e = gen_dt(&mut r)?.to_encoded(); inject(&mut r, e.as_bytes()) }
                 else if r.chance(1, 4) {
                     // zone suffixes around the accepted limits (+14:00 / -12:00, minutes 59/60)
                     let d = gen_date(&mut r)?.to_encoded();
@@ -658,7 +743,7 @@ pub fn cases(ctx: &Ctx) -> Vec<Case> {
                 match r.below(6) {
                     0 => case_date_range(format!("-{}", b.to_encoded()).as_bytes(), None),
                     1 => case_date_range(format!("{}-", a.to_encoded()).as_bytes(), None),
-                    2 => { let t = mutate(&mut r, &format!("{}-{}", a.to_encoded(), b.to_encoded())); case_date_range(&t, None) }
+                    2 => { let e = format!("{}-{}", a.to_encoded(), b.to_encoded()); let t = if r.coin() { inject(&mut r, e.as_bytes()) } else { mutate(&mut r, &e) }; case_date_range(&t, None) }
                     _ => case_date_range(&range_text(&a.to_encoded(), &b.to_encoded()), Some((a, b))),
                 }
             }
@@ -668,9 +753,19 @@ pub fn cases(ctx: &Ctx) -> Vec<Case> {
                 match r.below(6) {
                     0 => case_time_range(format!("-{}", b.to_encoded()).as_bytes(), None),
                     1 => case_time_range(format!("{}-", a.to_encoded()).as_bytes(), None),
-                    2 => { let t = mutate(&mut r, &format!("{}-{}", a.to_encoded(), b.to_encoded())); case_time_range(&t, None) }
+                    2 => { let e = format!("{}-{}", a.to_encoded(), b.to_encoded()); let t = if r.coin() { inject(&mut r, e.as_bytes()) } else { mutate(&mut r, &e) }; case_time_range(&t, None) }
                     _ => case_time_range(&range_text(&a.to_encoded(), &b.to_encoded()), Some((a, b))),
                 }
+            }
+            20 => {
+                let t = match r.below(4) { 0 => wild_text(&mut r, 12), 1 => { let e = gen_date(&mut r)?.to_encoded(); inject(&mut r, e.as_bytes()) }
+                    2 => { let e = gen_date_p(&mut r, 2)?.to_encoded(); mutate(&mut r, &e) } _ => gen_date(&mut r)?.to_encoded().into_bytes() };
+                case_parse_date_full(&t)
+            }
+            21 => {
+                let t = match r.below(4) { 0 => wild_text(&mut r, 16), 1 => { let e = gen_time(&mut r)?.to_encoded(); inject(&mut r, e.as_bytes()) }
+                    2 => { let e = gen_time(&mut r)?.to_encoded(); mutate(&mut r, &e) } _ => gen_time(&mut r)?.to_encoded().into_bytes() };
+                case_parse_time_full(&t)
             }
             _ => {
                 let (a, b) = (gen_dt(&mut r)?, gen_dt(&mut r)?);
@@ -679,7 +774,7 @@ pub fn cases(ctx: &Ctx) -> Vec<Case> {
                 match r.below(8) {
                     0 => case_dt_range(mode, format!("-{}", b.to_encoded()).as_bytes(), None),
                     1 => case_dt_range(mode, format!("{}-", a.to_encoded()).as_bytes(), None),
-                    2 => { let t = mutate(&mut r, &format!("{}-{}", a.to_encoded(), b.to_encoded())); case_dt_range(mode, &t, None) }
+                    2 => { let e = format!("{}-{}", a.to_encoded(), b.to_encoded()); let t = if r.coin() { inject(&mut r, e.as_bytes()) } else { mutate(&mut r, &e) }; case_dt_range(mode, &t, None) }
                     _ => case_dt_range(mode, &range_text(&a.to_encoded(), &b.to_encoded()), Some((a, b))),
                 }
             }
